@@ -36,6 +36,18 @@ def configs(rng, tier):
             for v in ("Terse", "Medium", "Verbose"):
                 out.append({"Language": l, "SpeechStyle": st, "Verbosity": v,
                             "SpeechOverrides_CapitalLetters": rng.choice(["", "cap"]), "CapitalLetters_UseWord": rng.choice(["true", "false"])})
+    # "no speech engine is selected" has several spellings (get_tts lower-cases the value and takes anything it does not know for
+    # none), and the preferences that drive an engine's markup may be set all the same: none of it may show in the text.
+    # Walked through, not drawn, so that every spelling meets Bookmark=true in every run.
+    spellings = [None, "none", "None", "NONE", "Eloquence"]
+    for i, c in enumerate(out):
+        if spellings[i % 5] is not None:
+            c["TTS"] = spellings[i % 5]
+        c["Bookmark"] = "true" if (i // 5) % 2 == 0 else "false"
+        c["CapitalLetters_Beep"] = "true" if i % 3 == 0 else "false"
+        c["CapitalLetters_Pitch"] = ["0", "20", "-15"][i % 3]
+        c["MathRate"] = ["100", "150"][i % 2]
+        c["PauseFactor"] = ["100", "300", "0"][(i // 2) % 3]
     return out
 
 
